@@ -207,6 +207,30 @@ theorem run_closed (bs : Nat) (hbs : 0 < bs) (s : State α) (ops : List (Op α))
     simp only [run]; rw [ih, step_closed]
     cases op <;> simp [hasClose]
 
+/-- the writer state after a script, at the real block size -/
+def after (ops : List (Op α)) : State α := (run BlockSize blockSize_pos State.init ops).1
+
+theorem after_closed (ops : List (Op α)) : (after ops).closed = hasClose ops := by
+  simpa [after, State.init] using run_closed BlockSize blockSize_pos (State.init : State α) ops
+
+theorem after_inv (ops : List (Op α)) : Inv BlockSize (after ops) :=
+  run_inv BlockSize blockSize_pos (State.init : State α) ops (Inv.init BlockSize blockSize_pos)
+
+theorem after_held (ops : List (Op α)) : (after ops).emitted.flatten ++ (after ops).active = accepted ops := by
+  have := run_held BlockSize blockSize_pos (State.init : State α) ops rfl
+  simpa [after, State.held, State.init] using this
+
+/-- after a Close every queued block has at most BlockSize bytes -/
+theorem after_blocks_le (ops : List (Op α)) (hclose : hasClose ops = true) :
+    ∀ p ∈ (after ops).emitted, p.length ≤ BlockSize := by
+  have hcl : (after ops).closed = true := by rw [after_closed, hclose]
+  obtain ⟨_, pre, last, hem, hpre, hlast⟩ := (after_inv ops).closed_blocks hcl
+  intro p hp
+  rw [hem] at hp
+  rcases List.mem_append.mp hp with h' | h'
+  · exact (hpre p h').2
+  · simp at h'; subst h'; omega
+
 /-- Demonstration script for any block size > 1: one payload of `bs + 1` bytes, Flush, Close gives blocks
 of `bs`, 1 and 0 bytes. -/
 theorem demo_split (bs : Nat) (hbs : 1 < bs) :
